@@ -1,6 +1,6 @@
 (** non-vacuity for C05: concrete, non-trivial instances meeting the hypotheses of the main theorems *)
 From Coq Require Import List NArith ZArith Bool String Ascii.
-From ApiFu Require Import Base.Sexp Val.Values Val.CoerceModel Val.CoerceSpec Val.CoerceProofs Val.CoerceReasons Val.CoerceRefine Val.CoerceRoutes Val.CoerceTotal Val.CoerceComplete.
+From ApiFu Require Import Base.Sexp Val.Values Val.CoerceModel Val.CoerceSpec Val.CoerceProofs Val.FloatExact Val.CoerceReasons Val.CoerceRefine Val.CoerceRoutes Val.CoerceSameValue Val.CoerceTotal Val.CoerceComplete Val.BridgeC04 Val.BridgeC04Proofs.
 Import ListNotations.
 Open Scope string_scope.
 
@@ -69,13 +69,14 @@ Definition box_json : jval :=
   JObj [ (nm "p", JObj [(nm "x", JNum (F64 5 0)); (nm "z", JNum (F64 3 0))]); (nm "c", JStr (nm "GREEN")) ].
 
 Example routes_meet :
-  same_value box_lit box_json /\ jval_ok box_json = true /\
+  same_client_value box_lit box_json /\ jnum_wf box_json = true /\ jval_ok box_json = true /\
   exists g, coerce_literal all_fixed Eex dtex [] box_lit (StNonNull (StNamed (nm "Box"))) true = Ok g /\
             coerce_var_value all_fixed Eex dtex box_json (StNamed (nm "Box")) true = Ok g /\
             g <> GNil.
 Proof.
-  split; [|split].
+  split; [|split; [|split]].
   - simpl. repeat split; vm_compute; reflexivity.
+  - vm_compute; reflexivity.
   - vm_compute; reflexivity.
   - eexists. split; [vm_compute; reflexivity|split; [vm_compute; reflexivity|discriminate]].
 Qed.
@@ -86,7 +87,7 @@ Example nested_meets :
   let L := LList [LInt 1; LVar (nm "v")] in
   find_def (nm "v") defs_ex = Some {| vd_name := nm "v"; vd_type := StNonNull (StNamed (nm "Int")); vd_default := None |} /\
   coerce_var_value all_fixed Eex dtex (JNum (F64 5 0)) (StNonNull (StNamed (nm "Int"))) true = Ok (GInt 5) /\
-  same_value (LInt 5) (JNum (F64 5 0)) /\
+  same_client_value (LInt 5) (JNum (F64 5 0)) /\ jnum_wf (JNum (F64 5 0)) = true /\
   usage_ok all_fixed Eex defs_ex L (Some (StList (StNamed (nm "Int")))) false = true /\
   subst_var (nm "v") (LInt 5) L = LList [LInt 1; LInt 5] /\
   coerce_literal all_fixed Eex dtex vv L (StList (StNamed (nm "Int"))) true = Ok (GList [GInt 1; GInt 5]) /\
@@ -119,8 +120,9 @@ Qed.
 (** static_dynamic_agree is not vacuous and its four reasons are each needed.  The served example
     has no run-time reason; then one request per reason, each accepted by validation, each a
     run-time error, each with exactly that reason. *)
-Example no_runtime_reason : runtime_reason Eex dtex defs_ex args_ex raw_ex = false.
-Proof. vm_compute; reflexivity. Qed.
+Example no_runtime_reason : runtime_reason Eex dtex defs_ex args_ex raw_ex = false /\
+  runtime_reason_precise Eex dtex argdefs_ex defs_ex args_ex raw_ex = false.
+Proof. split; vm_compute; reflexivity. Qed.
 
 Definition Er : env :=
   [ (nm "Int", TScalar KInt);
@@ -174,3 +176,41 @@ Example reason_bad_variable_value :
   run_request all_fixed Eint dtex true argdefs defs args raw = ORuntimeError /\
   bad_variable_value all_fixed Eint dtex defs raw = true /\ refusing_hook Eint = false.
 Proof. cbv zeta. repeat split; vm_compute; reflexivity. Qed.
+
+(** the scope of route independence for integers: 2^53+1 is held by no binary64, so it has no JSON
+    spelling ([same_client_value] is unsatisfiable for it); a client that writes the same digits in
+    the variables document is read as 2^53 by any JSON decoder into float64, and an ID then differs
+    between the two routes (Float does not: ParseFloat rounds the literal the same way) *)
+Example beyond_2_53 :
+  let z := 9007199254740993%Z in
+  let d := F64 1 53 in
+  f64_of_Q z 1 = Some d /\ f64_to_Z d = Some 9007199254740992%Z /\
+  coerce_literal all_fixed Eint dtex [] (LInt z) (StNamed (nm "Int")) true = Err /\
+  scalar_literal dtex KID (LInt z) = Some (GInt z) /\
+  scalar_variable all_fixed dtex KID (JNum d) = Some (GInt 9007199254740992) /\
+  scalar_literal dtex KFloat (LInt z) = Some (GFloat d) /\
+  scalar_variable all_fixed dtex KFloat (JNum d) = Some (GFloat d).
+Proof. cbv zeta. repeat split; vm_compute; reflexivity. Qed.
+
+(** the precise hook reason is strictly sharper: with a refusing hook somewhere in the schema (R) but
+    an argument of type Int, the coarse reason holds although nothing can fail *)
+Example precise_is_sharper :
+  let argdefs := [ (nm "x", {| in_type := StNamed (nm "Int"); in_default := None |}) ] in
+  let args := [ (nm "x", LInt 1) ] in
+  runtime_reason (Er) dtex [] args [] = true /\
+  runtime_reason_precise Er dtex argdefs [] args [] = false /\
+  hook_reached_args Er [ (nm "x", {| in_type := StNamed (nm "R"); in_default := None |}) ] [ (nm "x", LObject [ (nm "a", LInt 1) ]) ] = true.
+Proof. cbv zeta. repeat split; vm_compute; reflexivity. Qed.
+
+(** the C04 bridge computes: C04's validateCoercion on the translation of C05's literals, numbers
+    read back from their decimal text; the example environment of the bridge theorem's corollary *)
+Example bridge_computes :
+  dec_of_Z (-2147483649) = map N_of_ascii (list_ascii_of_string "-2147483649") /\
+  c04_accepts Eint (LInt 2147483647) (StNamed (nm "Int")) true = true /\
+  c04_accepts Eint (LInt 2147483648) (StNamed (nm "Int")) true = false /\
+  c04_accepts Eint (LList [LInt 1; LNull]) (StList (StNonNull (StNamed (nm "Int")))) true = false /\
+  c04_accepts Er (LObject [ (nm "a", LInt 1) ]) (StNamed (nm "R")) true = true /\
+  c04_accepts Er (LObject [ (nm "a", LInt 1); (nm "a", LInt 2) ]) (StNamed (nm "R")) true = false /\
+  non_numeric [ (nm "String", TScalar KString); (nm "Color", TEnum [ (nm "RED", GInt 1) ]) ] = true /\
+  obj_free (LList [LEnum (nm "RED"); LString (nm "x")]) = true.
+Proof. repeat split; vm_compute; reflexivity. Qed.
